@@ -38,7 +38,8 @@ __CPROVER_requires(BT_CASE_OK ==> ND_OK(BT_MAG(toFormat), radix))
 __CPROVER_requires(__CPROVER_w_ok(toFill, (maxChars + 1) * sizeof(XMLCh)))
 __CPROVER_assigns(__CPROVER_object_upto(toFill, (maxChars + 1) * sizeof(XMLCh)), verif_thrown, verif_throw_type, verif_throw_code)
 __CPROVER_ensures((maxChars != 0 && toFormat == 0) ==> (!verif_thrown && toFill[0] == chDigit_0 && toFill[1] == 0))
-__CPROVER_ensures((maxChars != 0 && toFormat != 0 && !RADIX_OK(radix)) ==> (verif_thrown && verif_throw_type == VT_RuntimeException))
+/* unknown radix: RuntimeException; when the sign alone already fills maxChars the zero-room error (IllegalArgumentException) may come first */
+__CPROVER_ensures((maxChars != 0 && toFormat != 0 && !RADIX_OK(radix)) ==> (verif_thrown && (verif_throw_type == VT_RuntimeException || (verif_throw_type == VT_IllegalArgumentException && BT_SIGN(toFormat) >= maxChars))))
 /* sign + digits must fit into maxChars characters, else the documented error */
 __CPROVER_ensures((BT_CASE_OK && BT_SIGN(toFormat) + ND > maxChars) ==> (verif_thrown && verif_throw_type == VT_IllegalArgumentException))
 __CPROVER_ensures((BT_CASE_OK && BT_SIGN(toFormat) + ND <= maxChars) ==> (!verif_thrown && toFill[BT_SIGN(toFormat) + ND] == 0 && (toFormat >= 0 || toFill[0] == chDash)))
